@@ -159,7 +159,7 @@ CLAIMS = {
              "seed/push/pop agree on the entry layout; the stop and accept tests of min_combinations_in_interval_iter_sorted "
              "equal 'i_end <= score or (found and best < score)' and 'i_start <= score < i_end' on every weak ordering of "
              "(score, i_start, i_end, best), and the scan is fed by sorted_combinations(range(len(elements)), sum of scores, "
-             "yield_key=True). That the yielded keys are non-decreasing (needs the caller's key to be monotone under extension "
+             "yield_key=True) and is the only producer of the returned list. That the yielded keys are non-decreasing (needs the caller's key to be monotone under extension "
              "and heapq to be correct) and the values themselves are not decided.",
         level_note=STATIC_BASE + "heapq semantics and monotonicity of the caller's key trusted.",
         technique="static analysis: linear normal forms over reaching definitions, layout agreement, ordering abstraction of guards"),
@@ -173,12 +173,14 @@ CLAIMS = {
         technique="static analysis: typestate abstract interpretation with inlining along the MRO"),
     "C19": dict(
         design_ref="DESIGN.md §6 C19",
-        text="Four clauses: the BatcherIter accumulate-and-yield idiom (every element appended once, full batch yielded then "
-             "replaced by a fresh container, non-empty remainder yielded, lock-step zip); agreement of the numeral tables of "
+        text="Six clauses: the BatcherIter accumulate-and-yield idiom (every element appended once, full batch yielded then "
+             "replaced by a fresh container created by this call, non-empty remainder yielded, lock-step zip); agreement of the numeral tables of "
              "int_2_roman/roman_2_int (each numeral evaluates to its value under the reader's table; standard descending "
              "13-entry table); arg_sort by delegation to sorted(range(n), key=..., reverse=reverse); the window scans of "
-             "sub_seq/search_sub_seq examine every offset. Inverse-ness on 1..3999 as such, compare_pos_in_iterables and the "
-             "Batcher index arithmetic are value-level and not decided.",
+             "sub_seq/search_sub_seq examine every offset; compare_pos_in_iterables uses a recognised multiset idiom (remove-loop "
+             "over a list copy / Counter) and traverses each Iterable argument at most once on every path; Batcher.__len__ is a "
+             "ceiling division of the current length of the data, __getitem__ raises IndexError exactly for item >= len and "
+             "slices [item*bs : item*bs + bs] (linear normal forms). Inverse-ness on 1..3999 as such is value-level and not decided.",
         level_note=STATIC_BASE,
         technique="static analysis: idiom typestate, literal-table agreement, delegation and scan-shape rules"),
     "C20": dict(
